@@ -408,6 +408,14 @@ def rule_r5(ctx, rep):
         rep.oblige(("R5", "recursion", norm(r)), ok)
         if not ok:
             rep.add("R5", fi.qname, r, "the recursive unregistration does not range exactly over the children of the node being deleted", fi.loc(r))
+        # inside the loop the descent is unconditional: every child goes with its parent
+        if loop is not None:
+            from ..condeval import enclosing_ifs
+            for (g, _side) in enclosing_ifs(fi, r):
+                if any(x is g for x in ast.walk(loop)):
+                    rep.oblige(("R5", "unconditional", norm(g.test)[:40]), False)
+                    rep.add("R5", fi.qname, g.test, "whether a child of the deleted node is unregistered depends on a test: descendants for which it "
+                            "fails stay registered although their subtree was discarded", fi.loc(g))
         for kw in r.keywords:
             if kw.arg == "children" and isinstance(kw.value, ast.Constant) and kw.value.value is False:
                 rep.add("R5", fi.qname, r, "descendants below the first level stay registered (children=False in the recursion)", fi.loc(r))
